@@ -2,6 +2,7 @@ package an
 
 import (
 	"go/token"
+	"go/types"
 	"strings"
 
 	"golang.org/x/tools/go/ssa"
@@ -78,6 +79,9 @@ func FieldKey(v ssa.Value) string {
 	name := t.String()
 	if i := strings.LastIndex(name, "."); i >= 0 {
 		name = name[i+1:]
+	}
+	if n, ok := t.(*types.Named); ok {
+		name = TypeName(n)
 	}
 	return name + "." + fieldName(fa.X.Type(), fa.Field)
 }
